@@ -88,6 +88,12 @@ func readAll(k kase) (calls int, records int, err error, bad string) {
 		calls++
 		v, e := read()
 		if e != nil {
+			// reading on after the end (or after an error) still answers every call with a record or an error
+			for extra := 0; extra < 2; extra++ {
+				if v2, e2 := read(); e2 == nil && isNil(v2) {
+					return calls, records, e, fmt.Sprintf("call %d, after an earlier call had returned %q, returned neither a record nor an error", calls+extra+1, e.Error())
+				}
+			}
 			return calls, records, e, ""
 		}
 		if isNil(v) {
@@ -340,16 +346,16 @@ func tokensFor(format string) []token {
 // ---- seeds for mutation
 
 var seeds = map[string][]string{
-	"fasta": {">s1 first\nacgtacgt\nacgt\n>s2\nttga\n"},
-	"fastq": {"@r1 d\nacgt\n+\n!!!!\n@r2\nac\n+r2\n@+\n"},
+	"fasta":             {">s1 first\nacgtacgt\nacgt\n>s2\nttga\n"},
+	"fastq":             {"@r1 d\nacgt\n+\n!!!!\n@r2\nac\n+r2\n@+\n"},
 	"fastq-solexa":      {"@r1 d\nacgt\n+\n;@h~\n@r2\nac\n+r2\n\xc0\xff\n"},
 	"fastq-illumina1_3": {"@r1 d\nacgt\n+\n@Bh~\n@r2\nac\n+r2\n\x00\xff\n"},
-	"bed3":  {"chr1\t10\t20\nchr2\t0\t5\n"},
-	"bed4":  {"chr1\t10\t20\tn1\nchr2\t0\t5\tn2\n"},
-	"bed5":  {"chr1\t10\t20\tn1\t3\nchr2\t0\t5\tn2\t0\n"},
-	"bed6":  {"chr1\t10\t20\tn1\t3\t+\nchr2\t0\t5\tn2\t0\t-\n"},
-	"bed12": {"chr1\t10\t20\tn1\t3\t+\t12\t18\t1,2,3\t2\t3,4\t0,6\nchr2\t0\t5\tn2\t0\t.\t0\t0\t0\t1\t5\t0\n"},
-	"gff":   {"##gff-version 2\n##sequence-region chr1 1 100\nchr1\tsrc\tgene\t3\t9\t0.5\t+\t0\tID g1; Note \"a b\"\tfree text\n# c\n##DNA s1\n##acgt\n##ac\n##end-DNA\nchr1\tsrc\texon\t4\t6\t.\t-\t.\n"},
+	"bed3":              {"chr1\t10\t20\nchr2\t0\t5\n"},
+	"bed4":              {"chr1\t10\t20\tn1\nchr2\t0\t5\tn2\n"},
+	"bed5":              {"chr1\t10\t20\tn1\t3\nchr2\t0\t5\tn2\t0\n"},
+	"bed6":              {"chr1\t10\t20\tn1\t3\t+\nchr2\t0\t5\tn2\t0\t-\n"},
+	"bed12":             {"chr1\t10\t20\tn1\t3\t+\t12\t18\t1,2,3\t2\t3,4\t0,6\nchr2\t0\t5\tn2\t0\t.\t0\t0\t0\t1\t5\t0\n"},
+	"gff":               {"##gff-version 2\n##sequence-region chr1 1 100\nchr1\tsrc\tgene\t3\t9\t0.5\t+\t0\tID g1; Note \"a b\"\tfree text\n# c\n##DNA s1\n##acgt\n##ac\n##end-DNA\nchr1\tsrc\texon\t4\t6\t.\t-\t.\n"},
 }
 
 func mutations(seed string) [][]byte {
@@ -371,7 +377,7 @@ func mutations(seed string) [][]byte {
 		cols := strings.Split(body, sep)
 		for ci := range cols {
 			variants := [][]string{
-				append(append([]string{}, cols[:ci]...), cols[ci+1:]...),                             // delete column
+				append(append([]string{}, cols[:ci]...), cols[ci+1:]...),                     // delete column
 				append(append(append([]string{}, cols[:ci+1]...), cols[ci]), cols[ci+1:]...), // duplicate column
 			}
 			for _, v := range []string{"", "0", "-1", "9223372036854775808", "x", "1e3", " "} {
